@@ -312,6 +312,10 @@ func c07WaitGroup(c *Check, P string, r *GCRoles) {
 					}
 				}
 				c.Report(okD, P+".O4", "WG-ADD-PAIRS-TEARDOWN", S, g.Pos(), "go teardown", "every increment is paired with a teardown goroutine (which will decrement)")
+				held := r.LA.Held(g)
+				_, hs := held[r.idSubs]
+				_, ht := held[r.idTopic]
+				c.Report(hs && ht, P+".O4", "TEARDOWN-STARTED-UNDER-LOCKS", S, g.Pos(), "go teardown", "the teardown goroutine is started while Subscribe holds the subscribers lock and the topic mutex (it looks the topic's mutex up and removes the subscription: before Subscribe created the mutex and registered the subscription there is nothing to find)", "held: "+held.String())
 			}
 		})
 	}
@@ -366,6 +370,11 @@ func c07WaitGroup(c *Check, P string, r *GCRoles) {
 				c.Report(Dominates(Cl, s, w), P+".O8", "SIGNAL-BEFORE-WAIT", Cl, w.Pos(), "Wait", "the closing signal is raised before Close starts waiting (the waited-for goroutines can see it)")
 			}
 		}
+		for _, fn := range r.Funcs {
+			for _, st := range FieldStores(fn, r.Persisted) {
+				c.Report(AllOrigins(st.Val, func(o ssa.Value) bool { _, ok := o.(*ssa.MakeMap); return ok }), P+".O6", "PERSISTED-MAP-NEVER-NIL", fn, st.Pos(), "store to the persisted messages", "the persisted-message map is only ever replaced by a new, empty map (a Publish that passed the closed check may still assign into it: a nil map would panic)")
+			}
+		}
 		// the persisted log is dropped only after every subscription goroutine ended: a replay in progress indexes it under the subscribers lock only
 		for _, st := range FieldStores(Cl, r.Persisted) {
 			ok := false
@@ -383,7 +392,7 @@ func c07ClosedChecks(c *Check, P string, r *GCRoles) {
 	Pub := r.Publish
 	chk := Callers([]*ssa.Function{Pub}, r.IsClosed)
 	if c.Floor(P+".O5", "closed check in Publish", len(chk), 1) {
-		closedTrue, closedFalse := BoolEdges(Pub, ResultOfAny(chk, 0))
+		closedTrue, closedFalse := r.closedVerdictEdges(Pub, chk)
 		c.Floor(P+".O5", "test of the closed check's result in Publish", len(closedFalse), 1)
 		for _, e := range closedTrue {
 			re := ReachEdge(e, NewCut().AddEdges(closedFalse...))
@@ -406,6 +415,11 @@ func c07ClosedChecks(c *Check, P string, r *GCRoles) {
 		for _, f := range Callers([]*ssa.Function{Pub}, r.Fan) {
 			if n := f.Common().Signature().Results().Len(); n > 0 {
 				srcs = append(srcs, ErrSource{f, n - 1})
+			}
+		}
+		if IsErrorType(r.IsClosed.Signature.Results().At(0).Type()) {
+			for _, ck := range chk {
+				srcs = append(srcs, ErrSource{ck, 0})
 			}
 		}
 		ErrorsOnlyFrom(c, P+".O5", "PUBLISH-FAILS-ONLY-WHEN-CLOSED", Pub, srcs, closedTrue, "Publish refuses a batch only when the Pub/Sub is closed (or the fan-out reports an error): no other condition — no subscribers, an option, the size of the batch — makes it fail or skip")
@@ -440,8 +454,20 @@ func c07ClosedChecks(c *Check, P string, r *GCRoles) {
 		for _, ld := range FieldLoads(r.IsClosed, r.Closed) {
 			c.Report(r.LA.Held(ld)[r.idClosedLock] == 'W', P+".O5", "CLOSED-CHECK-LOCKED", r.IsClosed, ld.Pos(), "closed flag read", "the closed check reads the flag under the closed lock")
 		}
-		for ret, vals := range ReturnValues(r.IsClosed, 0) {
-			c.Report(len(vals) == 1 && LoadedField(vals[0]) == r.Closed, P+".O5", "CLOSED-CHECK-RESULT", r.IsClosed, ret.Pos(), "return", "the closed check returns the flag")
+		if IsErrorType(r.IsClosed.Signature.Results().At(0).Type()) {
+			fT, fF := BoolEdges(r.IsClosed, func(v ssa.Value) bool { return AllOrigins(v, IsFieldLoad(r.Closed)) })
+			for _, ret := range Returns(r.IsClosed) {
+				if RetNil(ret, 0) {
+					c.Report(len(fF) > 0 && GuardedBy(r.IsClosed, ret, fF), P+".O5", "CLOSED-CHECK-RESULT", r.IsClosed, ret.Pos(), "return nil", "the closed check answers nil only when the flag is not set")
+				} else {
+					os := Origins(ret.Results[0])
+					c.Report(len(fT) > 0 && GuardedBy(r.IsClosed, ret, fT) && len(os) > 0 && allOf(os, func(v ssa.Value) bool { return ProvablyNonNil(v, func(ssa.Value) bool { return false }) }), P+".O5", "CLOSED-CHECK-RESULT", r.IsClosed, ret.Pos(), "return error", "the closed check answers with a non-nil error exactly when the flag is set")
+				}
+			}
+		} else {
+			for ret, vals := range ReturnValues(r.IsClosed, 0) {
+				c.Report(len(vals) == 1 && LoadedField(vals[0]) == r.Closed, P+".O5", "CLOSED-CHECK-RESULT", r.IsClosed, ret.Pos(), "return", "the closed check returns the flag")
+			}
 		}
 	}
 	S := r.Subscribe
@@ -452,7 +478,7 @@ func c07ClosedChecks(c *Check, P string, r *GCRoles) {
 			re := ReachEdge(e, nil)
 			ok := true
 			for _, ret := range Returns(S) {
-				if re[ret] {
+				if re[ret] && !KnownNonNilAt(S, ret, ret.Results[1]) {
 					for _, v := range Origins(ret.Results[1]) {
 						if IsNilConst(v) {
 							ok = false
@@ -465,11 +491,15 @@ func c07ClosedChecks(c *Check, P string, r *GCRoles) {
 					ok = false
 				}
 			}
-			// the closed lock is released on the error path
+			// the closed lock is released on the error path (explicitly, or by an unlock deferred in the function that tests the flag)
 			rel := false
 			for _, cl := range CallsIn(S) {
-				if op, isOp := r.LA.opOf(cl); isOp && op.mode == 'w' && op.id == r.idClosedLock && re[cl] {
-					rel = true
+				if op, isOp := r.LA.opOf(cl); isOp && op.mode == 'w' && op.id == r.idClosedLock {
+					if _, isDefer := cl.(*ssa.Defer); isDefer && cl.Parent() == e.From.Parent() && Dominates(cl.Parent(), cl, e.From.Instrs[len(e.From.Instrs)-1]) {
+						rel = true
+					} else if !isDefer && re[cl] {
+						rel = true
+					}
 				}
 			}
 			c.Report(ok && rel, P+".O5", "SUBSCRIBE-REJECTS-WHEN-CLOSED", S, e.From.Instrs[len(e.From.Instrs)-1].Pos(), "closed edge", "on the closed edge Subscribe releases the closed lock, registers nothing and returns an error")
